@@ -846,7 +846,7 @@ func (p *c28Pair) mutate(op *scn.Op, newMsg func() proto.Message) string {
 		if mistypedAt == n {
 			mistyped()
 		}
-		if err := (proto.UnmarshalOptions{Merge: true, AllowPartial: true}).Unmarshal(wire, p.m); err != nil {
+		if err := (proto.UnmarshalOptions{Merge: true, AllowPartial: true, Resolver: c28BinResolver()}).Unmarshal(wire, p.m); err != nil {
 			return "oneof: binary input naming several members of one oneof was rejected: " + err.Error()
 		}
 	case "roundtrip-bin", "roundtrip-json", "roundtrip-text":
@@ -857,7 +857,7 @@ func (p *c28Pair) mutate(op *scn.Op, newMsg func() proto.Message) string {
 			var b []byte
 			b, err = proto.MarshalOptions{AllowPartial: true}.Marshal(p.m)
 			if err == nil {
-				err = (proto.UnmarshalOptions{AllowPartial: true}).Unmarshal(b, fresh)
+				err = (proto.UnmarshalOptions{AllowPartial: true, Resolver: c28BinResolver()}).Unmarshal(b, fresh)
 			}
 		case "roundtrip-json":
 			var b []byte
@@ -876,14 +876,14 @@ func (p *c28Pair) mutate(op *scn.Op, newMsg func() proto.Message) string {
 			}
 			b, err = jo.Marshal(p.m)
 			if err == nil {
-				err = (protojson.UnmarshalOptions{AllowPartial: true}).Unmarshal(b, fresh)
+				err = (protojson.UnmarshalOptions{AllowPartial: true, Resolver: c28TextResolver()}).Unmarshal(b, fresh)
 				stripUnknown(p.am) // JSON does not carry unknown fields
 			}
 		case "roundtrip-text":
 			var b []byte
 			b, err = prototext.MarshalOptions{AllowPartial: true, Multiline: op.M&1 != 0}.Marshal(p.m)
 			if err == nil {
-				err = (prototext.UnmarshalOptions{AllowPartial: true}).Unmarshal(b, fresh)
+				err = (prototext.UnmarshalOptions{AllowPartial: true, Resolver: c28TextResolver()}).Unmarshal(b, fresh)
 				stripUnknown(p.am)
 			}
 		}
@@ -1325,6 +1325,31 @@ func c28CheckSynth(spec *gen.SynthSpec, main protoreflect.MessageDescriptor, bui
 	return
 }
 
+// c28Rebuilt is set while a scenario runs dynamicpb over protodesc-rebuilt descriptors: decoders then
+// resolve extensions (and Any) against types over those descriptors, as such a program would, instead
+// of against the generated types of the global registry, which extend other descriptor instances.
+var c28Rebuilt bool
+
+func c28BinResolver() interface {
+	FindExtensionByName(field protoreflect.FullName) (protoreflect.ExtensionType, error)
+	FindExtensionByNumber(message protoreflect.FullName, field protoreflect.FieldNumber) (protoreflect.ExtensionType, error)
+} {
+	if c28Rebuilt {
+		return gen.RebuiltTypes()
+	}
+	return protoregistry.GlobalTypes
+}
+
+func c28TextResolver() interface {
+	protoregistry.MessageTypeResolver
+	protoregistry.ExtensionTypeResolver
+} {
+	if c28Rebuilt {
+		return gen.RebuiltTypes()
+	}
+	return protoregistry.GlobalTypes
+}
+
 func (w c28) report(aspect string) bool { return w.aspects == nil || w.aspects[aspect] }
 
 func (w c28) Run(s *scn.Scn, x *sim.Exec) {
@@ -1357,6 +1382,8 @@ func (w c28) Run(s *scn.Scn, x *sim.Exec) {
 		// dynamicpb over the descriptor as reflect/protodesc rebuilds it from the FileDescriptorProto
 		if md := gen.Rebuilt(typ); md != nil {
 			rootMD = md
+			c28Rebuilt = true
+			defer func() { c28Rebuilt = false }()
 			x.Probe("protodesc-rebuilt-descriptor-scenarios", 1)
 		}
 	}
